@@ -6,7 +6,8 @@ export VERIF_REPO=${VP_RUN_REPO:-/repo}
 cd "$(dirname "$0")/.."
 ./setup.sh > setup.log 2>&1
 declare -A REL=( [hr-1]="C05 C11 C01" [hr-2]="C08" [hr-3]="C02 C05 C07 C10 C01" [hr-4]="C10 C06" [hr-5]="C17 C11" [hr-6]="C05 C11" [hr-7]="C13 C06" [hr-8]="C03 C04 C05 C01"
-  [hr2-1]="C07 C01" [hr2-2]="C08" [hr2-3]="C15" [hr2-4]="C09" [hr2-5]="C12" [hr2-6]="C18" [hr2-7]="C17" [hr2-8]="C02 C07 C01" [hr2-9]="C14 C06" [hr2-10]="C05 C11" )
+  [hr2-1]="C07 C01" [hr2-2]="C08" [hr2-3]="C15" [hr2-4]="C09" [hr2-5]="C12" [hr2-6]="C18" [hr2-7]="C17" [hr2-8]="C02 C07 C01" [hr2-9]="C14 C06" [hr2-10]="C05 C11"
+  [hr3-1]="C04 C06" [hr3-2]="C05" [hr3-3]="C09" [hr3-4]="C04" [hr3-5]="C02 C03" [hr3-6]="C03 C02" [hr3-7]="C10" [hr3-8]="C05 C13" [hr3-9]="C13" [hr3-10]="C13 C14" [hr3-11]="C14" [hr3-12]="C07 C01" )
 for d in seeded/${1:-}*/; do
   n=$(basename $d); pid=$(python3 -c "import json;print(json.load(open('$d/meta.json'))['property'])")
   git -C $VERIF_REPO apply $PWD/$d/patch.diff || { echo "$n: patch does not apply"; continue; }
